@@ -22,25 +22,49 @@ MANIFEST = {
             "amount; SINGLE without a matching output: zero hashOutputs, nothing of the outputs); the fork id folded into bits 8.. changes no flag; the "
             "serialiser of the legacy message is injective in (transaction, hash type); the closures of check_solution read the state only through "
             "the committed bytes, so equal committed bytes + equal input context => equal verdict of is_solution_ok (frame direction), with the "
-            "other inputs' unlocking data (all hash types) and the outputs under SIGHASH_NONE as proved instances; unknown spent output => False; the "
-            "per-call sighash cache is transparent; every answer of any history of validations and in-place changes on one object equals the fresh "
-            "computation; tampering with a committed field changes the digest/fails verification under explicit collision-resistance/unforgeability "
-            "hypotheses. Tied to the code by histories: sign with pycoin (P2PKH, P2PK, bare/P2SH/P2WSH multisig, P2WPKH, P2SH-P2WPKH; "
-            "BTC/LTC/GRS/BCH/BTG; six standard hash types), then sequences of single-field mutations interleaved with "
-            "is_solution_ok/bad_solution_count on the same object and on a fresh parse; the implementation's verdicts must equal what the hash types "
-            "dictate (model) and an independent reference, and each other.",
-    "note": "The script interpreter is a parameter of the model (C03 covers it). 'Committed change => invalid' rests on SHA-256 collision resistance and "
-            "ECDSA unforgeability, stated as hypotheses of C06_tamper_fails_partial (and, for reading the BIP143 part hashes back as lists, of "
-            "C06_committed_fields_bip143) and observed on every generated case.",
-    "technique": "Lean 4 proof (unique decoding / congruence over the sighash model) + differential histories on the real objects + reference oracle",
+            "other inputs' unlocking data (all hash types) and the outputs under SIGHASH_NONE as proved instances; an input moved to another position "
+            "commits to what stands at its NEW position (ANYONECANPAY: position free; legacy SINGLE: position and output; BIP143 SINGLE: the output "
+            "there); unknown spent output => False; is_solution_ok turns ScriptError and nothing else into False and nothing into True (except clauses "
+            "regenerated from the source); the per-call sighash cache is transparent; every answer of any history of validations and in-place changes "
+            "on one object equals the fresh computation. FAILS DIRECTION AT VERDICT LEVEL, through is_solution_ok of the instantiated interpreter "
+            "(stdVM: the VM model of C03 run with the class's DEFAULT_FLAGS, its signature check being checksig over the closures of check_solution: "
+            "key parse, lax DER, digest of the committed bytes, ECDSA): for P2PKH, P2PK, P2WPKH, P2SH-P2WPKH and m-of-n multisig bare / P2SH / P2WSH / "
+            "P2SH-P2WSH (every 1<=m<=n<=20, per-signature hash types): the input validates only if every signature verifies for the digest of the "
+            "current state (C06_valid_imp_verifies_*), and if it validated in s and the committed bytes of one signature differ in s' (by "
+            "C06_tampered_of_fields_legacy / _bip143_partial: a committed field differs) it does not validate in s' under exactly two named "
+            "cryptographic hypotheses, CollisionFree (digest function on the two committed byte strings) and NoForgery (the signature verifies for the "
+            "other digest under none of the keys) (C06_tamper_fails_<kind>); everything structural is proved (which bytes are digested, that the digest "
+            "feeds ECDSA-verify of the key in the script, that a refused check makes CHECKSIG push false - NULLFAIL is not a default flag - and the "
+            "script fail, that the multisig loop gives up when one signature matches no key, that P2SH / witness wrappers compare hashes first). THE "
+            "SCRIPT BEING SATISFIED: a change inside the hash push of a P2PKH / P2WPKH / P2SH / P2WSH spent script makes the input fail with no "
+            "cryptographic hypothesis (C06_spent_script_hash_fails_*); a spent script changed into one the same unlocking data still runs (P2PKH then "
+            "OP_NOP) fails because the script code is committed (C06_tamper_fails_p2pkh_script_nop). Tied to the code by histories: sign with pycoin "
+            "(P2PKH, P2PK, bare/P2SH/P2WSH multisig, P2WPKH, P2SH-P2WPKH; BTC/LTC/GRS/BCH/BTG; six standard hash types), then sequences of "
+            "single-field mutations interleaved with is_solution_ok/bad_solution_count on the same object and on a fresh parse, and a deterministic "
+            "table (c06_each): coin class x hash type x puzzle kind x one single-step mutation per family and position (version, lock time, each "
+            "input's outpoint hash / index / sequence, each output's amount / script, insertion / removal / reordering of inputs and of outputs, "
+            "unlocking data swapped between two inputs of the same kind, spent amount, the data push of the spent script, OP_NOP appended / "
+            "prepended to it, unspent set to None / dropped, values outside their wire range), the last input of every row having no output at its "
+            "position; the verdict of EVERY input is dictated by the model ('1', '0', 'E' = raises) and by an independent reference, and compared.",
+    "note": "The frame theorems keep the script interpreter abstract (C03 covers it); the fails direction instantiates it (Model/ValidateVM.lean) and "
+            "rests on SHA-256 collision freeness on the two named byte strings and on ECDSA non-forgeability for the two named digests, hypotheses of "
+            "C06_tamper_fails_<kind> (for reading the BIP143 part hashes back as lists: collision freeness on three more named pairs and a non-zero "
+            "output digest, C06_tampered_of_fields_bip143_partial) - facts the statements also need: the tampered transaction is not of the coinbase "
+            "shape (known finding coinbase-marker-input-valid) and the closure answers in the tampered state (otherwise is_solution_ok raises: 'E' in "
+            "the table). Spent-script changes no theorem speaks about (OP_NOP around a P2SH / witness template, arbitrary byte flips outside the data "
+            "pushes, unlocking data swapped between different kinds) stay undetermined ('?').",
+    "technique": "Lean 4 proof (unique decoding / congruence over the sighash model; symbolic evaluation of the consensus specification on the standard "
+                 "templates, carried to the VM model by C03M_verify_eq) + differential histories and a deterministic mutation table on the real objects + "
+                 "reference oracle",
 }
 RULE = ("ops c06_from_db / c06_set_unspents / c06_parse_unspents (ways the unspents get populated: databases lacking the tx, with too few outputs, "
-        "under the wrong hash; None entries, short lists; the include_unspents extension; scriptSig empty / OP_1 / genuine), c06_hist (signed transaction + mutation sequence; verdict vector after every step), c06_guards (missing_unspent / missing_unspents / the "
+        "under the wrong hash; None entries, short lists; the include_unspents extension; scriptSig empty / OP_1 / genuine), c06_hist (signed transaction + mutation sequence; verdict vector after every step), "
+        "c06_each (the table: signed transaction + single mutations each applied on its own; one verdict vector per mutation), c06_guards (missing_unspent / missing_unspents / the "
         "is_solution_ok guard on unspents patterns), c06_cache (one checksigs execution with repeated hash types); distinct = distinct op line; "
         "trivial = histories without any mutation")
-ASSUMPTIONS = ["SHA-256 collision resistance and ECDSA unforgeability (explicit hypotheses of C06_tamper_fails_partial; no generated tampering produced a valid signature)",
-               "the script interpreter is abstracted as a function of the TxContext and of the sighash closures (modelled under C03)",
-               "mutations keep every field in its wire range and do not create the null outpoint (coinbase marker)"]
+ASSUMPTIONS = ["SHA-256 collision freeness on the two committed byte strings and ECDSA non-forgeability for their digests (the two named hypotheses of C06_tamper_fails_<kind>; no generated tampering produced a valid signature)",
+               "the frame theorems abstract the script interpreter as a function of the TxContext and of the sighash closures; the tamper theorems instantiate it with the VM model of C03 and the consensus ECDSA / key / DER parsing of Spec/Secp256k1 (pycoin's own tied to them under C01/C03/C10)",
+               "mutations do not create the null outpoint (coinbase marker); a value outside its wire range makes the validation raise (dictated 'E'), never return True"]
 TRUSTED = ["harness/sighashlib.py: independent re-statement of the consensus sighash preimages used to decide what a mutation must do to a verdict"]
 
 
@@ -194,9 +218,16 @@ def signed_info(coin, f0, us0, meta):
     return res
 
 
-def kept(coin, f, us, j, info, pres, code):
+def judge(coin, f, us, j, info, pres, code):
+    """'1' every signed preimage is what its signature commits to at position j now; '0' one differs or is refused; 'E' every
+    message computation raises (a field out of its wire range: is_solution_ok lets that escape); '?' some do, some do not"""
     w, _code, hts = info
-    return all(p is not None and p != "refused" and ref_preimage(coin, f, us, w, code, j, h) == p for h, p in zip(hts, pres))
+    cur = [ref_preimage(coin, f, us, w, code, j, h) for h in hts]
+    if cur and all(c == "raises" for c in cur):
+        return "E"
+    if any(c == "raises" for c in cur):
+        return "?"
+    return "1" if all(p is not None and p != "refused" and p != "raises" and c == p for c, p in zip(cur, pres)) else "0"
 
 
 def expected(coin, signed, f, us, mp):
@@ -212,7 +243,7 @@ def expected(coin, signed, f, us, mp):
             if not (f[2][j][2] == sol and list(f[2][j][4]) == list(wit)) or spent is None:
                 e = "?"
             elif new == spent:
-                e = "1" if kept(coin, f, us, j, info, pres, code) else "0"
+                e = judge(coin, f, us, j, info, pres, code)
             else:
                 kind, _r = spk_template(spent)
                 data_only = data_diff_only(spent, new)
@@ -221,7 +252,9 @@ def expected(coin, signed, f, us, mp):
                 elif (not w) and code == spent and kind in ("p2pkh", "p2pk", "multisig") and (
                         data_only or new == spent + b"\x61" or new == b"\x61" + spent):
                     # the spent script is the script code: the signatures commit to the new one
-                    e = "?" if kept(coin, f, us, j, info, pres, new) else "0"
+                    e = judge(coin, f, us, j, info, pres, new)
+                    if e == "1" or (e == "E" and data_only):
+                        e = "?"       # (a changed key may not even parse: then the message is never asked for)
                 else:
                     e = "?"
         exp.append(e)
@@ -229,20 +262,29 @@ def expected(coin, signed, f, us, mp):
 
 
 def verdicts_of(tx, mask=(), count=True):
+    """verdict vector ('1' / '0' / 'E' = the validation raised; '?' at the masked positions, whatever happened there) and
+    bad_solution_count(): 'E' when it raised; '?' when only masked inputs could have decided it"""
     out = []
     for i in range(len(tx.txs_in)):
+        if i in mask:
+            try:
+                tx.is_solution_ok(i)
+            except Exception:  # noqa: BLE001
+                pass
+            out.append("?")
+            continue
         try:
             r = "1" if tx.is_solution_ok(i) else "0"
         except Exception:  # noqa: BLE001
             r = "E"
-        out.append("?" if (i in mask and r != "E") else r)
+        out.append(r)
     if not count:
         return "".join(out)
     try:
         bad = str(tx.bad_solution_count())
     except Exception:  # noqa: BLE001
         bad = "E"
-    if mask and bad != "E":
+    if "E" not in out and mask:
         bad = "?"
     return "".join(out) + "/" + bad
 
@@ -285,7 +327,11 @@ def impl(op: str) -> str:
                     mask = masked(tx, mp)
                     v = verdicts_of(tx, mask)
                     v2 = verdicts_of(tx, mask)                       # asked twice on the same object
-                    v3 = verdicts_of(fresh_copy(coin, tx), mask)     # and on a fresh parse of its bytes
+                    try:
+                        fresh = fresh_copy(coin, tx)                 # and on a fresh parse of its bytes
+                    except Exception:  # noqa: BLE001  (a field out of its wire range: there are no bytes)
+                        fresh = tx
+                    v3 = verdicts_of(fresh, mask)
                     if not (v == v2 == v3):
                         v += "!STALE(%s,%s)" % (v2, v3)
                     res.append(v)
@@ -481,7 +527,16 @@ def parse_meta(s):
 
 
 def ref_preimage(coin, f, us, witness, code, idx, ht):
-    """the consensus preimage a signature (hash type ht) on input idx commits to; 'refused' / 'bug' / bytes / None"""
+    """the consensus preimage a signature (hash type ht) on input idx commits to; 'refused' / 'bug' / bytes / None;
+    'raises' when a field that goes into it does not fit its wire format (no such message exists)"""
+    import struct
+    try:
+        return _ref_preimage(coin, f, us, witness, code, idx, ht)
+    except (struct.error, OverflowError):
+        return "raises"
+
+
+def _ref_preimage(coin, f, us, witness, code, idx, ht):
     forkid = coin in ("bch", "btg")
     if witness or forkid:
         if idx >= len(f[2]) or idx >= len(us) or us[idx] is None:
@@ -531,7 +586,8 @@ def oracle(op: str, out: str):
             exp = expected(coin, signed, f, us, mp)
             want = "".join(exp)
             if k == "c06_hist" or cmd is None:
-                want += "/" + ("?" if "?" in exp else str(exp.count("0")))
+                cb = tx.is_coinbase()
+                want += "/" + (("0" if cb else "E") if "E" in exp else "?" if "?" in exp else "0" if cb else str(exp.count("0")))
             if n >= len(got):
                 return "validation history returned %d answers for %d states" % (len(got), len(steps) + 1)
             if got[n] != want:
@@ -543,6 +599,8 @@ def oracle(op: str, out: str):
                             return "input %d is reported valid although its spent output is unknown (after step %d: %s)" % (j, n, cmd)
                         if g == "1":
                             return "input %d still validates after a change its hash type commits to (step %d: %s)" % (j, n, cmd)
+                        if g == "0" and e == "E":
+                            return "validating input %d returned False although its signed message cannot even be formed (step %d: %s)" % (j, n, cmd)
                         if g == "0":
                             return "input %d fails validation after a change outside what its hash type commits to (step %d: %s)" % (j, n, cmd)
                         return "validating input %d raised instead of returning a verdict (step %d: %s)" % (j, n, cmd)
@@ -669,7 +727,7 @@ def rand_step(rng, coin, tx, orig):
     """one mutation command for the current state (`orig` = fields of the signed state, to build reverting steps)"""
     n_in, n_out = len(tx.txs_in), len(tx.txs_out)
     fam = rng.choice(["ver", "lock", "seq", "seq", "pidx", "phash", "sol", "wit", "oval", "oval", "oscr", "delin", "insin", "swapin", "swapsol",
-                      "delout", "insout", "swapout", "us_none", "us_val", "us_scr", "usdrop", "revert", "nop", "uskey", "uskey", "usnop", "uspre"])
+                      "delout", "insout", "swapout", "us_none", "us_val", "us_scr", "usdrop", "revert", "nop", "uskey", "uskey", "usnop", "uspre", "range"])
     i = rng.randrange(n_in) if n_in else 0
     j = rng.randrange(n_out) if n_out else 0
     if fam == "ver":
@@ -747,6 +805,9 @@ def rand_step(rng, coin, tx, orig):
         if fam == "uskey":
             return "uskey:%d:%d" % (i, rng.randrange(520)) if data_positions(bytes(tx.unspents[i].script)) else "nop"
         return "%s:%d" % (fam, i)
+    if fam == "range":
+        return rng.choice(["ver:4294967296", "ver:-1", "lock:4294967296", "seq:%d:-1" % i, "pidx:%d:4294967296" % i, "oval:%d:-1" % j,
+                           "oval:%d:18446744073709551616" % j]) if (n_in and n_out) else "nop"
     if fam == "revert":
         # put one field back to its signed value
         v, lock, ins, outs = orig
@@ -786,6 +847,9 @@ def table_steps(tx):
         st += ["us:%d:%d,%s" % (i, u.coin_value + 1, hx(u.script)), "uskey:%d:%d" % (i, 8 * i + 3), "usnop:%d" % i, "uspre:%d" % i,
                "us:%d:none" % i]
     st.append("usdrop")
+    # values that do not fit their wire format: no signed message exists, the validation raises (never True)
+    st += ["ver:4294967296", "lock:-1", "seq:%d:4294967296" % (n_in - 1), "pidx:0:-1", "oval:0:-1", "oval:%d:18446744073709551616" % (n_out - 1),
+           "us:1:-1,%s" % hx(tx.unspents[1].script)]
     return st
 
 
